@@ -76,6 +76,20 @@ class Tr:
             return None if b is None else b + "." + n.attr
         return None
 
+    @staticmethod
+    def _chunk_idiom(g):
+        """(b, N) when `g` is `b[i : i + N] for i in range(0, len(b), N)`"""
+        if not (len(g.generators) == 1 and not g.generators[0].ifs and isinstance(g.generators[0].target, ast.Name) and isinstance(g.elt, ast.Subscript)
+                and isinstance(g.elt.slice, ast.Slice) and g.elt.slice.step is None and g.elt.slice.lower is not None and g.elt.slice.upper is not None):
+            return None
+        i, it, b = g.generators[0].target.id, g.generators[0].iter, g.elt.value
+        lo, up = g.elt.slice.lower, g.elt.slice.upper
+        if (isinstance(it, ast.Call) and ast.unparse(it.func) == "range" and len(it.args) == 3 and ast.unparse(it.args[0]) == "0"
+                and ast.unparse(it.args[1]) == f"len({ast.unparse(b)})" and ast.unparse(lo) == i and isinstance(up, ast.BinOp) and isinstance(up.op, ast.Add)
+                and ast.unparse(up.left) == i and ast.unparse(up.right) == ast.unparse(it.args[2])):
+            return b, it.args[2]
+        return None
+
     def field(self, d: str) -> str:
         """the Lean field that stands for the attribute `self.<name>` (spec `fields` maps Python names to the model's)"""
         name = d[5:].replace(".", "_")
@@ -185,7 +199,7 @@ class Tr:
             op = {ast.Add: "+", ast.Sub: "-", ast.Mult: "*"}.get(type(n.op))
             if op is None:
                 raise Unsupported(ast.dump(n.op))
-            if op == "+" and self.typ(n.left) == "str":
+            if op == "+" and (self.typ(n.left) in ("str", "list") or isinstance(n.left, ast.List)):
                 op = "++"
             return f"({self.e(n.left)} {op} {self.e(n.right)})"
         if isinstance(n, ast.IfExp):
@@ -308,6 +322,9 @@ class Tr:
             return f"((dictGet {self.e(n.value)} {self.e(n.slice)}).getD [])"      # only behind an `in` guard
         if isinstance(n, ast.Subscript) and isinstance(n.slice, ast.Constant) and n.slice.value in self.spec.get("row_fields", ()) and self.typ(n.value) == "obj":
             return self.e(n.value)            # a result row represented by its one selected column
+        if isinstance(n, (ast.ListComp, ast.GeneratorExp)) and self.spec.get("chunks_fn") and self._chunk_idiom(n) is not None:
+            b, step = self._chunk_idiom(n)
+            return f"({self.spec['chunks_fn']} {self.e(step)} {self.e(b)})"
         if isinstance(n, ast.List) and not n.elts:
             return "[]"
         if isinstance(n, ast.List):
@@ -524,6 +541,8 @@ class Tr:
             first = ast.Assign(targets=[ast.Name(id=x, ctx=ast.Store())], value=s.value.func.value, lineno=0)
             second = ast.Assign(targets=[ast.Name(id=x, ctx=ast.Store())], value=ast.Call(func=ast.Name(id=cname, ctx=ast.Load()), args=[], keywords=kws), lineno=0)
             return self.block([first, second] + list(rest), ind)
+        if isinstance(s, ast.Expr) and isinstance(s.value, ast.Call) and ast.unparse(s.value.func).startswith("logger."):
+            return self.block(rest, ind)          # logging: no effect on what is modelled (its arguments are not evaluated here)
         hoisted = self._hoist_test_call(s)
         if hoisted is not None:
             return self.block(hoisted + list(rest), ind)
@@ -555,6 +574,16 @@ class Tr:
                     f"{ind}  ({self.spec['thread']}, .error {self.spec['assert_error']})")
         if any(ast.unparse(s).startswith(x) for x in self.spec.get("skip_src", ())):
             return self.block(rest, ind)
+        if (isinstance(s, ast.Expr) and isinstance(s.value, ast.Call) and isinstance(s.value.func, ast.Attribute) and s.value.func.attr == "extend"
+                and len(s.value.args) == 1 and isinstance(s.value.args[0], ast.GeneratorExp) and self.spec.get("chunks_fn")
+                and (self.dotted(s.value.func.value) or "") in self.spec.get("assign_map", {})):
+            # `L.extend(b[i : i + N] for i in range(0, len(b), N))`: the consecutive N-byte pieces of b
+            idiom = self._chunk_idiom(s.value.args[0])
+            if idiom is None:
+                raise Unsupported("extend with a generator that is not the chunking idiom")
+            b, step = idiom
+            fn, _ = self.spec["assign_map"][self.dotted(s.value.func.value)]
+            return (f"{ind}let {self.state} := {fn}Extend {self.state} ({self.spec['chunks_fn']} {self.e(step)} {self.e(b)})\n" + self.block(rest, ind))
         op = self._world_op(s)
         if op is not None:
             return self.world_stmt(op[0], op[1], op[2], rest, ind)
@@ -636,6 +665,15 @@ class Tr:
             a, b = (x.id for x in s.targets[0].elts)
             self.types[a] = self.types[b] = "str"
             return f"{ind}let ({a}, {b}) := {self.spec['split_names'][s.value.args[0].id]} {self.e(s.value.func.value)}\n" + self.block(rest, ind)
+        if (isinstance(s, ast.Assign) and len(s.targets) == 1 and isinstance(s.targets[0], ast.Tuple) and all(isinstance(x, ast.Name) for x in s.targets[0].elts)
+                and self.canon_src(s.value) in self.opaque and self.spec.get("tuple_types", {}).get(self.canon_src(s.value))):
+            # `a, b = <expression the spec maps to a Lean pair>`
+            tys = self.spec["tuple_types"][self.canon_src(s.value)]
+            if len(tys) != len(s.targets[0].elts):
+                raise Unsupported("tuple assignment arity")
+            for x, t in zip(s.targets[0].elts, tys):
+                self.types[x.id] = t
+            return f"{ind}let ({', '.join(x.id for x in s.targets[0].elts)}) := {self.opaque[self.canon_src(s.value)]}\n" + self.block(rest, ind)
         if isinstance(s, ast.Assign) and len(s.targets) == 1 and isinstance(s.value, ast.Call) and self.dotted(s.value.func) in self.spec.get("raising_funcs", {}) \
                 and isinstance(s.targets[0], ast.Name):
             fn, wrap = self.spec["raising_funcs"][self.dotted(s.value.func)]
@@ -1355,6 +1393,18 @@ SPECS = [
          types={"self.timeout_handle": "optobj"},
          assign_map={"self.transport": ("Srv.Flow.pyLost", False)},
          world_ops={"self.timeout_handle.cancel": dict(fn="Srv.Flow.pyCancel", ret=None)}),
+    dict(name="sendResponse", file="server/protocol.py", cls="GeminiServerProtocol", func="_send_response", state="s", thread="s", implicit_return=True,
+         header="def sendResponse (r : Srv.Resp) (s : Srv.Flow.FSt) : Srv.Flow.FSt × Unit :=", state_type="Srv.Flow.FSt",
+         fields={"_unsent": "unsent", "_write_paused": "paused", "_response_sent": "started", "timeout_handle": "timer"},
+         truthy_objs=("self.timeout_handle",), rename={"self.transport": "(!s.lost)", "WRITE_CHUNK_SIZE": "Srv.Flow.writeChunk"},
+         types={"self._unsent": "list", "self._write_paused": "bool", "self._response_sent": "bool", "self.transport": "bool", "self.timeout_handle": "optobj",
+                "WRITE_CHUNK_SIZE": "num"},
+         opaque={"_encode_response(response.status, response.meta, response.body)": "(Srv.render r)"},
+         tuple_types={"_encode_response(response.status, response.meta, response.body)": ("str", "str")},
+         skip_src=("duration_ms = 0.0", "if self.request_start_time:"),
+         assign_map={"self._unsent": ("Srv.Flow.pySetUnsent", True)}, chunks_fn="Srv.Flow.chunk",
+         pytypes={"bytes": ("str", "List Nat"), "list[bytes]": ("list", "List (List Nat)")},
+         world_ops={"self.timeout_handle.cancel": dict(fn="Srv.Flow.pyCancel", ret=None), "self._pump_response": dict(fn="(fun s => (pumpResponse s).1)", ret=None)}),
     dict(name="pauseWriting", file="server/protocol.py", cls="GeminiServerProtocol", func="pause_writing", state="s", thread="s", implicit_return=True,
          header="def pauseWriting (s : Srv.Flow.FSt) : Srv.Flow.FSt × Unit :=", state_type="Srv.Flow.FSt",
          fields={"_unsent": "unsent", "_write_paused": "paused", "_response_sent": "started"},
@@ -1409,7 +1459,7 @@ PRELUDE = {
     "followRedirects": (["NauyacaVerif.Cl.Redirect"], []),
     "dataReceived": (["NauyacaVerif.Srv.PState"], []),
     "pumpResponse": (["NauyacaVerif.Srv.FlowPy"], []), "resumeWriting": (["NauyacaVerif.Srv.FlowPy", "NauyacaVerif.Gen.Fn.PumpResponse"], []),
-    "pauseWriting": (["NauyacaVerif.Srv.FlowPy"], []), "connectionLost": (["NauyacaVerif.Srv.FlowPy"], []),
+    "pauseWriting": (["NauyacaVerif.Srv.FlowPy"], []), "sendResponse": (["NauyacaVerif.Srv.FlowPy", "NauyacaVerif.Gen.Fn.PumpResponse"], []), "connectionLost": (["NauyacaVerif.Srv.FlowPy"], []),
     "clientDataReceived": (["NauyacaVerif.Cl.PyClient"], []), "titanClientDataReceived": (["NauyacaVerif.Cl.PyClient"], []),
     "getSingleTail": (["NauyacaVerif.Cl.TofuEnv"], []), "uploadTail": (["NauyacaVerif.Cl.TofuEnv"], []),
     "tofuVerify": (["NauyacaVerif.Misc.SqlEnv"], []), "tofuTrust": (["NauyacaVerif.Misc.SqlEnv"], []), "tofuRevoke": (["NauyacaVerif.Misc.SqlEnv"], []),
